@@ -723,6 +723,6 @@ pub fn gen_plan(seed: u64, run: u64) -> Plan {
     }
     let ops = g.ops;
     // element-shape swarm dimension (drawn last so that the plans of earlier versions keep their shape)
-    let elem = if is_mat { 0 } else { [0, 0, 0, 0, 0, 1, 1, 2][rng.below(8) as usize] };
+    let elem = if is_mat { 0 } else { [0, 0, 0, 0, 0, 0, 0, 0, 0, 3, 1, 1, 1, 1, 2, 2][rng.below(16) as usize] };
     Plan { kind, faulty, elem, ops }
 }
